@@ -100,8 +100,12 @@ def run(tier):
         tl = os.path.join(wd, nm + ".ndjson")
         pl = vp.run(["timeout", "120", d, tl], timeout=200)
         lev = vp.read_ndjson(tl)
-        if pl.returncode != 0 or len([e for e in lev if e["e"] == "lockprobe"]) < 18:
-            raise vp.Broken("%s rc=%d, %d events: %s" % (nm, pl.returncode, len(lev), pl.stderr[-300:]))
+        if pl.returncode != 0:
+            # plain sequential use of three sandboxes ended abnormally in the real code: an observation
+            chk.violation("%s: sequential create / use / destroy of three sandboxes ended abnormally (rc=%d): %s" %
+                          (nm, pl.returncode, pl.stderr[-200:].strip()), {"rc": pl.returncode, "events": lev[-10:]})
+        elif len([e for e in lev if e["e"] == "lockprobe"]) < 18:
+            raise vp.Broken("%s: %d events only" % (nm, len(lev)))
         nprobe += len(lev)
         events += lev
     chk.cov["lock_probes"] = nprobe
